@@ -77,6 +77,7 @@ class ModelStorage:
         self.next_sid = 0
         self.next_tid = 0
         self.anon = 0
+        self.relax_compat = False  # diagnostic variant: no distribution compatibility check
 
     def clone(self) -> "ModelStorage":
         m = ModelStorage.__new__(ModelStorage)
@@ -86,6 +87,7 @@ class ModelStorage:
         m.next_sid = self.next_sid
         m.next_tid = self.next_tid
         m.anon = self.anon
+        m.relax_compat = self.relax_compat
         return m
 
     def key(self) -> str:
@@ -221,7 +223,7 @@ class ModelStorage:
         (class name, plus the choices for categoricals)."""
         t = self._updatable(tid)
         prev = self.studies[t["sid"]]["param_dists"].get(name)
-        if prev is not None and prev != compat_key:
+        if prev is not None and prev != compat_key and not self.relax_compat:
             raise ModelError("ValueError")
         self._mut_study(t["sid"])["param_dists"][name] = compat_key
         t["params"][name] = cf(external)
